@@ -43,6 +43,11 @@ pub trait GcManaged {
     fn mark(&self);
 
     fn blacken(&self);
+
+    #[cfg(feature = "verif_hooks")]
+    fn verif_dead_range(&self) -> Option<(usize, usize)> {
+        None
+    }
 }
 
 type GcBoxPtr<T> = NonNull<GcBox<T>>;
@@ -51,6 +56,10 @@ struct GcBox<T: GcManaged + ?Sized> {
     colour: Cell<Colour>,
     num_roots: Cell<usize>,
     _pin: PhantomPinned,
+    #[cfg(feature = "verif_hooks")]
+    verif_freed: Cell<bool>,
+    #[cfg(feature = "verif_hooks")]
+    verif_type_name: &'static str,
     pub(crate) data: T,
 }
 
@@ -122,6 +131,11 @@ impl<T: 'static + GcManaged + ?Sized> Root<T> {
 
 impl<T: GcManaged + ?Sized> Root<T> {
     fn gc_box(&self) -> &GcBox<T> {
+        #[cfg(feature = "verif_hooks")]
+        unsafe {
+            let b = self.ptr.as_ref();
+            verif::check_live(b.verif_freed.get(), b.verif_type_name, "Root");
+        }
         unsafe { self.ptr.as_ref() }
     }
 
@@ -218,6 +232,11 @@ impl<T: 'static + GcManaged + ?Sized> UniqueRoot<T> {
 
 impl<T: GcManaged + ?Sized> UniqueRoot<T> {
     fn gc_box(&self) -> &GcBox<T> {
+        #[cfg(feature = "verif_hooks")]
+        unsafe {
+            let b = self.ptr.as_ref();
+            verif::check_live(b.verif_freed.get(), b.verif_type_name, "UniqueRoot");
+        }
         unsafe { self.ptr.as_ref() }
     }
 
@@ -286,6 +305,11 @@ impl<T: 'static + GcManaged> Gc<T> {
 
 impl<T: 'static + GcManaged + ?Sized> Gc<T> {
     fn gc_box(&self) -> &GcBox<T> {
+        #[cfg(feature = "verif_hooks")]
+        unsafe {
+            let b = self.ptr.as_ref();
+            verif::check_live(b.verif_freed.get(), b.verif_type_name, "Gc");
+        }
         unsafe { self.ptr.as_ref() }
     }
 }
@@ -356,6 +380,8 @@ impl Heap {
     }
 
     fn allocate_raw<T: 'static + GcManaged>(&mut self, data: T) -> GcBoxPtr<T> {
+        #[cfg(feature = "verif_hooks")]
+        verif::note_alloc();
         if cfg!(any(debug_assertions, feature = "debug_stress_gc")) {
             self.collect();
         } else {
@@ -365,6 +391,10 @@ impl Heap {
             colour: Cell::new(Colour::White),
             num_roots: Cell::new(0),
             _pin: PhantomPinned,
+            #[cfg(feature = "verif_hooks")]
+            verif_freed: Cell::new(false),
+            #[cfg(feature = "verif_hooks")]
+            verif_type_name: any::type_name::<T>(),
             data,
         });
 
@@ -374,6 +404,14 @@ impl Heap {
         let size = mem::size_of::<T>();
 
         self.bytes_allocated += size;
+
+        #[cfg(feature = "verif_hooks")]
+        verif::log_alloc(
+            size,
+            self.bytes_allocated,
+            self.collection_threshold,
+            self.objects.len(),
+        );
 
         if cfg!(feature = "debug_trace_gc") {
             let new_ptr = self.objects.last().unwrap();
@@ -389,6 +427,10 @@ impl Heap {
     }
 
     fn collect(&mut self) {
+        #[cfg(feature = "verif_hooks")]
+        if !verif::should_collect() {
+            return;
+        }
         if cfg!(feature = "debug_trace_gc") {
             println!("-- gc begin")
         }
@@ -400,6 +442,14 @@ impl Heap {
         let prev_bytes_allocated = self.bytes_allocated;
         self.bytes_allocated -= bytes_freed;
         self.collection_threshold = self.bytes_allocated * common::HEAP_GROWTH_FACTOR;
+
+        #[cfg(feature = "verif_hooks")]
+        verif::log_collect(
+            prev_bytes_allocated,
+            self.bytes_allocated,
+            self.collection_threshold,
+            self.objects.len(),
+        );
 
         if cfg!(feature = "debug_trace_gc") {
             println!("-- gc end (freed {} bytes)", bytes_freed);
@@ -455,6 +505,20 @@ impl Heap {
             })
             .sum();
 
+        #[cfg(feature = "verif_hooks")]
+        if verif::quarantine_enabled() {
+            let all = mem::take(&mut self.objects);
+            for obj in all {
+                if obj.colour.get() == Colour::Black {
+                    self.objects.push(obj);
+                } else {
+                    obj.verif_freed.set(true);
+                    let range = obj.data.verif_dead_range();
+                    verif::quarantine(obj.verif_type_name, range, Box::new(obj));
+                }
+            }
+        }
+
         self.objects.retain(|obj| obj.colour.get() == Colour::Black);
 
         bytes_marked
@@ -478,6 +542,11 @@ impl<T: GcManaged> GcManaged for RefCell<T> {
 
     fn blacken(&self) {
         self.borrow().blacken();
+    }
+
+    #[cfg(feature = "verif_hooks")]
+    fn verif_dead_range(&self) -> Option<(usize, usize)> {
+        self.try_borrow().ok().and_then(|b| b.verif_dead_range())
     }
 }
 
@@ -520,5 +589,259 @@ impl<T: GcManaged> GcManaged for &[T] {
         for i in 0..self.len() {
             self[i].blacken();
         }
+    }
+}
+
+/// Verification hooks (feature `verif_hooks`): GC schedule control, quarantine of swept objects with
+/// use-after-free detection, and heap statistics. Observation and environment control only.
+#[cfg(feature = "verif_hooks")]
+pub mod verif {
+    use std::any::Any;
+    use std::cell::RefCell;
+    use std::collections::BTreeMap;
+
+    use super::HEAP;
+
+    #[derive(Clone, Debug, PartialEq)]
+    pub enum GcMode {
+        /// Whatever the build configuration does (every allocation in checked builds, threshold-paced
+        /// otherwise).
+        Default,
+        /// Never collect.
+        Never,
+        /// Collect only at the listed allocation indices (only meaningful where `collect` is reached at
+        /// every allocation, i.e. checked builds).
+        Only(Vec<usize>),
+    }
+
+    #[derive(Clone, Debug, Default)]
+    pub struct HeapStats {
+        pub bytes_allocated: usize,
+        pub threshold: usize,
+        pub objects: usize,
+        pub rooted: usize,
+        pub by_type: BTreeMap<String, usize>,
+        pub collections: usize,
+        pub allocations: usize,
+        pub quarantined: usize,
+    }
+
+    /// (kind 0=alloc 1=collect, size | bytes before, bytes after, threshold, live objects)
+    pub type LogEntry = (u8, usize, usize, usize, usize);
+
+    struct State {
+        mode: GcMode,
+        force: bool,
+        quarantine: bool,
+        alloc_index: usize,
+        collections: usize,
+        events: Vec<String>,
+        dead_ranges: Vec<(usize, usize)>,
+        quarantined: Vec<Box<dyn Any>>,
+        quarantined_by_type: BTreeMap<String, usize>,
+        log_enabled: bool,
+        log: Vec<LogEntry>,
+    }
+
+    thread_local! {
+        static STATE: RefCell<State> = RefCell::new(State {
+            mode: GcMode::Default,
+            force: false,
+            quarantine: false,
+            alloc_index: 0,
+            collections: 0,
+            events: Vec::new(),
+            dead_ranges: Vec::new(),
+            quarantined: Vec::new(),
+            quarantined_by_type: BTreeMap::new(),
+            log_enabled: false,
+            log: Vec::new(),
+        });
+    }
+
+    pub fn set_gc_mode(mode: GcMode) {
+        STATE.with(|s| s.borrow_mut().mode = mode);
+    }
+
+    pub fn set_quarantine(on: bool) {
+        STATE.with(|s| s.borrow_mut().quarantine = on);
+    }
+
+    pub fn set_alloc_log(on: bool) {
+        STATE.with(|s| {
+            let mut s = s.borrow_mut();
+            s.log_enabled = on;
+            s.log.clear();
+        });
+    }
+
+    pub fn take_alloc_log() -> Vec<LogEntry> {
+        STATE.with(|s| std::mem::take(&mut s.borrow_mut().log))
+    }
+
+    pub fn take_events() -> Vec<String> {
+        STATE.with(|s| std::mem::take(&mut s.borrow_mut().events))
+    }
+
+    pub fn alloc_index() -> usize {
+        STATE.with(|s| s.borrow().alloc_index)
+    }
+
+    pub fn reset_counters() {
+        STATE.with(|s| {
+            let mut s = s.borrow_mut();
+            s.alloc_index = 0;
+            s.collections = 0;
+            s.events.clear();
+            s.log.clear();
+        });
+    }
+
+    pub fn quarantined_by_type() -> BTreeMap<String, usize> {
+        STATE.with(|s| s.borrow().quarantined_by_type.clone())
+    }
+
+    /// Drop everything in quarantine (after which dangling pointers are really dangling).
+    pub fn purge() {
+        let q = STATE.with(|s| {
+            let mut s = s.borrow_mut();
+            s.dead_ranges.clear();
+            s.quarantined_by_type.clear();
+            std::mem::take(&mut s.quarantined)
+        });
+        drop(q);
+    }
+
+    pub fn force_collect() {
+        STATE.with(|s| s.borrow_mut().force = true);
+        HEAP.with(|h| h.borrow_mut().collect());
+        STATE.with(|s| s.borrow_mut().force = false);
+    }
+
+    pub fn heap_stats() -> HeapStats {
+        let mut stats = HEAP.with(|h| {
+            let h = h.borrow();
+            let mut by_type = BTreeMap::new();
+            let mut rooted = 0;
+            for obj in &h.objects {
+                *by_type.entry(obj.verif_type_name.to_string()).or_insert(0) += 1;
+                if obj.num_roots.get() > 0 {
+                    rooted += 1;
+                }
+            }
+            HeapStats {
+                bytes_allocated: h.bytes_allocated,
+                threshold: h.collection_threshold,
+                objects: h.objects.len(),
+                rooted,
+                by_type,
+                ..Default::default()
+            }
+        });
+        STATE.with(|s| {
+            let s = s.borrow();
+            stats.collections = s.collections;
+            stats.allocations = s.alloc_index;
+            stats.quarantined = s.quarantined.len();
+        });
+        stats
+    }
+
+    /// Sum of `size_of_val` over live boxes (what `bytes_allocated` should equal).
+    pub fn live_bytes() -> usize {
+        HEAP.with(|h| {
+            h.borrow()
+                .objects
+                .iter()
+                .map(|o| std::mem::size_of_val(&o.data))
+                .sum()
+        })
+    }
+
+    pub(crate) fn record_event(msg: String) {
+        STATE.with(|s| {
+            if let Ok(mut s) = s.try_borrow_mut() {
+                if s.events.len() < 64 {
+                    s.events.push(msg);
+                }
+            }
+        });
+    }
+
+    pub(crate) fn check_live(freed: bool, type_name: &'static str, via: &str) {
+        if freed {
+            record_event(format!("deref of freed {} via {}", type_name, via));
+        }
+    }
+
+    /// Called by open-upvalue accessors: is `addr` inside the stack of a swept fiber?
+    pub(crate) fn check_stack_addr(addr: usize, what: &str) {
+        let dead = STATE.with(|s| {
+            s.try_borrow()
+                .map(|s| s.dead_ranges.iter().any(|&(b, e)| addr >= b && addr < e))
+                .unwrap_or(false)
+        });
+        if dead {
+            record_event(format!("open upvalue {} into freed fiber stack", what));
+        }
+    }
+
+    pub(super) fn note_alloc() {
+        STATE.with(|s| s.borrow_mut().alloc_index += 1);
+    }
+
+    pub(super) fn log_alloc(size: usize, bytes: usize, threshold: usize, live: usize) {
+        STATE.with(|s| {
+            let mut s = s.borrow_mut();
+            if s.log_enabled {
+                s.log.push((0, size, bytes, threshold, live));
+            }
+        });
+    }
+
+    pub(super) fn log_collect(before: usize, after: usize, threshold: usize, live: usize) {
+        STATE.with(|s| {
+            let mut s = s.borrow_mut();
+            s.collections += 1;
+            if s.log_enabled {
+                s.log.push((1, before, after, threshold, live));
+            }
+        });
+    }
+
+    pub(super) fn should_collect() -> bool {
+        STATE.with(|s| {
+            let s = s.borrow();
+            if s.force {
+                return true;
+            }
+            match &s.mode {
+                GcMode::Default => true,
+                GcMode::Never => false,
+                // `alloc_index` was already incremented for the allocation in progress.
+                GcMode::Only(set) => set.contains(&(s.alloc_index - 1)),
+            }
+        })
+    }
+
+    pub(super) fn quarantine_enabled() -> bool {
+        STATE.with(|s| s.borrow().quarantine)
+    }
+
+    pub(super) fn quarantine(
+        type_name: &'static str,
+        range: Option<(usize, usize)>,
+        obj: Box<dyn Any>,
+    ) {
+        STATE.with(|s| {
+            let mut s = s.borrow_mut();
+            if let Some(r) = range {
+                s.dead_ranges.push(r);
+            }
+            *s.quarantined_by_type
+                .entry(type_name.to_string())
+                .or_insert(0) += 1;
+            s.quarantined.push(obj);
+        });
     }
 }
